@@ -87,7 +87,7 @@ def run(prop, tier, replay, Ctx):
     p = subprocess.run([exe, "--tier", tier, "--out", out], env=env)
     if p.returncode != 0 or not os.path.exists(out):
         raise Ctx.Machinery("h_layout exited with %s and no report" % p.returncode)
-    with open(out) as f:
+    with open(out, encoding="utf-8", errors="replace") as f:
         rep = json.load(f)
     expected = summary["cases"][tier] + 9 + summary["sequences"][tier] + summary["overlap"][tier]
     if rep["coverage"]["evaluations"] != expected:
